@@ -161,7 +161,9 @@ def r2_parsers(ctx: Ctx, rid: str) -> None:
             # the returned list is filled by a loop that precedes the return
             dom = ctx.dom(f, ALL)
             loops = [l for l in g.nodes if l.kind == "loop" and l.id in dom[r.id]]
-            ctx.ob(rid, f, "return value is the parsed list, after its parse loop", r, (not const_empty) and bool(loops),
+            comp = isinstance(v, (ast.ListComp,)) or (isinstance(v, ast.Call) and isinstance(v.func, ast.Name) and v.func.id == "list"
+                                                      and v.args and isinstance(v.args[0], (ast.GeneratorExp, ast.ListComp)))
+            ctx.ob(rid, f, "return value is the parsed list, after its parse loop", r, (not const_empty) and (bool(loops) or comp),
                    "every successful exit returns what a completed parse loop accumulated")
         # missing file raises explicitly
         ex_b = [b for b in g.nodes if b.kind == "branch" and "exists" in b.text]
